@@ -169,7 +169,7 @@ def gen(rng, tier):
                 elif r < 0.5:
                     sc.append(["clear"])
                 elif r < 0.8:
-                    sc.append(["ewait", rng.choice([0.0, 0.01, 0.5, 1000.0])])
+                    sc.append(["ewait", rng.choice([0.0, 0.01, 0.5, 1000.0, None, None])])
                 elif r < 0.9:
                     sc.append(["is_set"])
                 else:
